@@ -1,7 +1,7 @@
 from props_common import BASE_TB
 
 PROP = {
-    "modules": ["YorkieModel.Props.C02"],
+    "modules": ["YorkieModel.Props.C02", "YorkieModel.Props.C20Srv"],
     "engines": [
         # integrated engine: real client SDK + real in-process server (memory DB), traffic captured at the HTTP transport
         {"name": "srv", "args": ["orc=c02"], "quick": {"n": 480, "workers": 8}, "thorough": {"n": 12000, "workers": 14}},
